@@ -34,13 +34,16 @@ SPEC = os.path.join(VERIF, "spec")
 LIMIT = 2500
 
 # fields a corruption of which MUST be rejected (per module): the observable outcome and the projected state
+# fields are named "<event kind>:<path>", list indices written as #
 ESSENTIAL = {
-    "OrcaTrace": [r"^res", r"^l1\.\d+\.(v|f|e)", r"^l2\.\d+\.(v|f|e)"],
-    "OrcaLin": [r"res", r"\bl1\b.*\.(v|f)", r"\bl2\b.*\.(v|f)"],
-    "ConnTrace": [r"frames|got|replies"],
-    "LifecycleTrace": [r"^open_l1$", r"^gor$", r"^fresh_ok$", r"^accepting$"],
-    "walk": [r"^out", r"^l1n", r"^l2n"],
+    "OrcaTrace": [r"^op:res\."],                       # the reply the client saw
+    "OrcaLin": [r"^ret:res\."],                        # level A: replies (hcall events are level B, drift only)
+    "ConnTrace": [r"^x:units", r"^x:stray$"],
+    "LifecycleTrace": [r"^prefix:(open_l1|open_l2|gor|fresh_ok|accepting)$"],
+    "walk2": [r"^\w*:out", r"^\w*:l2n\.k\d\.(v\.#|f)$"],     # two tiers: reply and the authoritative tier (L1 vs the model is drift)
+    "walk1": [r"^\w*:out", r"^\w*:l1n\.k\d\.(v\.#|f)$"],
 }
+ESSENTIAL_BY_PROP = {("C02", "OrcaTrace"): [r"^op:l2\.#\.(v\.#|f)$"], ("C09", "OrcaTrace"): [r"^op:l2\.#\.e$"]}
 
 
 def leaves(obj, path=""):
@@ -56,8 +59,13 @@ def leaves(obj, path=""):
         yield path, obj
 
 
-def generic(path):
-    return re.sub(r"\.\d+", ".#", path)
+def generic(path, ev=None):
+    g = re.sub(r"\.\d+", ".#", path)
+    return "%s:%s" % (ev, g) if ev is not None else g
+
+
+def kind_of(e):
+    return e.get("ev") or e.get("event") or e.get("port") or ""
 
 
 def set_path(obj, path, val):
@@ -112,7 +120,7 @@ def mutate_field(events, rng, pool):
         if not lv:
             continue
         p, v = rng.choice(lv)
-        g = generic(p)
+        g = generic(p, kind_of(events[i]))
         others = [x for x in pool.get(g, []) if x != v and type(x) == type(v)]
         if others:
             nv = rng.choice(others)
@@ -147,7 +155,7 @@ def trace_case(casedir, case, nmut, seed):
     for e in events:
         for p, v in leaves(e):
             if not p.endswith(".[]"):
-                vs = pool.setdefault(generic(p), [])
+                vs = pool.setdefault(generic(p, kind_of(e)), [])
                 if v not in vs and len(vs) < 40:
                     vs.append(v)
     rng = random.Random(seed)
@@ -203,9 +211,10 @@ def walk_case(casedir, case, nmut, seed, exe):
     for e in parsed:
         for p, v in leaves(e):
             if not p.endswith(".[]"):
-                vs = pool.setdefault(generic(p), [])
+                vs = pool.setdefault(generic(p, kind_of(e)), [])
                 if v not in vs and len(vs) < 40:
                     vs.append(v)
+    res["module"] = "walk2" if case["shape"].get("orca") != "l1only" else "walk1"
     for k in range(nmut):
         for _ in range(50):
             i = rng.randrange(len(parsed))
@@ -215,7 +224,7 @@ def walk_case(casedir, case, nmut, seed, exe):
         else:
             continue
         p, v = rng.choice(lv)
-        others = [x for x in pool.get(generic(p), []) if x != v and type(x) == type(v)]
+        others = [x for x in pool.get(generic(p, kind_of(parsed[i])), []) if x != v and type(x) == type(v)]
         nv = rng.choice(others) if others else (v + 1 if isinstance(v, int) and not isinstance(v, bool) else (not v if isinstance(v, bool) else str(v) + "x"))
         e = copy.deepcopy(parsed[i])
         set_path(e, p, nv)
@@ -223,7 +232,7 @@ def walk_case(casedir, case, nmut, seed, exe):
         lines[i] = json.dumps(e)
         r = run([json.dumps(x) for x in parsed[:i]] + [json.dumps(e)] + [json.dumps(x) for x in parsed[i + 1:]])
         res["mutations"].append({"what": "edge %d (%s %s): %s: %r -> %r" % (i + 1, parsed[i].get("port"), (parsed[i].get("x") or {}).get("op"), p, v, nv),
-                                 "field": generic(p), "rejected": bool(r["error"] or r["mismatches"] > 0), "how": "walk mismatch" if r["mismatches"] else ("error" if r["error"] else "")})
+                                 "field": generic(p, kind_of(parsed[i])), "rejected": bool(r["error"] or r["mismatches"] > 0), "how": "walk mismatch" if r["mismatches"] else ("error" if r["error"] else "")})
     return res
 
 
@@ -278,13 +287,13 @@ def main():
             b[1] += 1 if m["rejected"] else 0
         r["by_field"] = {k: {"tried": v[0], "rejected": v[1]} for k, v in sorted(by.items())}
         r["never_noticed"] = sorted(k for k, v in by.items() if v[1] == 0)
-        ess = ESSENTIAL.get(r["module"], [])
+        ess = ESSENTIAL.get(r["module"], []) + ESSENTIAL_BY_PROP.get((r["case"].split("-")[0], r["module"]), [])
         missed = [m["what"] for m in muts if not m["rejected"] and any(re.search(x, m["field"]) for x in ess)]
         r["essential_missed"] = missed
         tot, rej = len(muts), sum(1 for m in muts if m["rejected"])
         summary.append("%-34s %-16s events=%-5d corruptions=%-3d rejected=%-3d never noticed: %s%s" % (
             r["case"], r["module"], r["events"], tot, rej, ", ".join(r["never_noticed"])[:150] or "-", "  SKIPPED: " + r["skipped"] if r.get("skipped") else ""))
-        if missed or (tot and rej == 0) or r.get("skipped"):
+        if missed or (tot and rej * 4 < tot) or r.get("skipped"):
             slack.append(r["case"])
     os.makedirs(os.path.dirname(a.out), exist_ok=True)
     with open(a.out, "w") as f:
